@@ -161,6 +161,17 @@ c05_cb(tpt_p tpt, void *udata) {
 	atomic_fetch_add(&s->cb_count, 1);
 }
 
+/* a message whose argument is the address of its own callback: packet checksum (cb ^ udata) is 0 */
+static uint32_t g5_selfarg_id = UINT32_MAX;
+static void
+c05_selfarg_cb(tpt_p tpt, void *udata) {
+	if (udata == (void *)c05_selfarg_cb && UINT32_MAX != g5_selfarg_id) {
+		tp_log(R_CB, g5_selfarg_id, (uint64_t)(uintptr_t)tpt, 0, 0);
+		atomic_fetch_add(&slots[g5_selfarg_id].cb_count, 1);
+	} else
+		tp_log(R_CB, 0xfffffff0u, (uint64_t)(uintptr_t)tpt, 0, 0); /* wrong argument delivered */
+}
+
 static tpt_p
 c05_dst(uint8_t d) {
 	if (255 == d)
@@ -181,7 +192,11 @@ c05_program(size_t sidx) {
 		id = base + i;
 		src = (sn->sends[i].src_own && sn->in_pool) ? tpt_get_current() : NULL;
 		tp_log(R_SEND_CALL, id, 0, 0, 0);
-		rc = tpt_msg_send(c05_dst(sn->sends[i].dst), src, sn->sends[i].flags & 7, c05_cb, &slots[id]);
+		if (0 == sidx && 0 == i && g5->selfarg) {
+			g5_selfarg_id = id;
+			rc = tpt_msg_send(c05_dst(sn->sends[i].dst), src, sn->sends[i].flags & 7, c05_selfarg_cb, (void *)c05_selfarg_cb);
+		} else
+			rc = tpt_msg_send(c05_dst(sn->sends[i].dst), src, sn->sends[i].flags & 7, c05_cb, &slots[id]);
 		tp_log(R_SEND_RET, id, (uint64_t)(int64_t)rc, 0, 0);
 	}
 	atomic_fetch_add(&g5_done, 1);
@@ -199,6 +214,36 @@ c05_stall_cb(tpt_p tpt, void *udata) {
 		usleep(100);
 		waited ++;
 	}
+}
+
+/* async-operation helpers */
+static atomic_uint g5_aop_step;
+static uint32_t g5_aop_cur;
+static tpt_msg_async_op_p g5_aop[8];
+static void
+c05_aop_result_cb(tpt_p tpt, void **udata) {
+	/* R_EV_CB reused: a = operation index, b = tpt argument */
+	tp_log(R_EV_CB, (uint64_t)(uintptr_t)udata[0], (uint64_t)(uintptr_t)tpt, (uint64_t)(uintptr_t)udata[1], 0);
+}
+static void
+c05_aop_alloc_cb(tpt_p tpt, void *udata) {
+	uint32_t b = g5_aop_cur;
+	tpt_p dst = (255 == g5->aop[b].dst) ? NULL : tp_thread_get(g5_tp, g5->aop[b].dst % g5->nthreads);
+
+	(void)tpt; (void)udata;
+	g5_aop[b] = tpt_msg_async_op_alloc(dst, c05_aop_result_cb);
+	tpt_msg_async_op_udata_set(g5_aop[b], 0, (void *)(uintptr_t)b);
+	tpt_msg_async_op_udata_set(g5_aop[b], 1, (void *)(uintptr_t)(0xa0b0 + b));
+	atomic_fetch_add(&g5_aop_step, 1);
+}
+static void
+c05_aop_free_cb(tpt_p tpt, void *udata) {
+	uint32_t b = g5_aop_cur;
+
+	(void)tpt; (void)udata;
+	tpt_msg_async_op_cb_free(g5_aop[b], NULL);
+	g5_aop[b] = NULL;
+	atomic_fetch_add(&g5_aop_step, 1);
 }
 
 static uint32_t g5_self_base;
@@ -254,6 +299,7 @@ c05_run(const c05_scn *scn, c05_out *out) {
 	memset(out, 0, sizeof(*out));
 	memset(ext_used, 0, sizeof(ext_used));
 	g5 = scn;
+	g5_selfarg_id = UINT32_MAX;
 	tp_harness_reset(&scn->plans);
 	for (i = 0; i < C05_SLOTS; i ++) {
 		slots[i].id = (uint32_t)i;
@@ -318,6 +364,30 @@ c05_run(const c05_scn *scn, c05_out *out) {
 	out->hang |= fence_all(g5_tp, scn->nthreads, 1);
 	out->hang |= fence_all(g5_tp, scn->nthreads, 1);
 	tp_log(R_MARK, 1, 0, 0, 0);
+	/* async-operation helpers: allocated on one thread (or outside), completed on another; the result callback must run
+	 * exactly once on the destination given at allocation (NULL = the allocating thread) */
+	if (0 != scn->naops && 0 == out->hang) {
+		atomic_store(&g5_aop_step, 0);
+		for (b = 0; b < scn->naops && b < 8; b ++) {
+			uint32_t want;
+			g5_aop_cur = b;
+			want = atomic_load(&g5_aop_step) + 1;
+			if (255 == scn->aop[b].alloc_on)
+				c05_aop_alloc_cb(NULL, NULL);
+			else if (0 != tpt_msg_send(tp_thread_get(g5_tp, scn->aop[b].alloc_on % scn->nthreads), NULL, 0, c05_aop_alloc_cb, NULL))
+				continue;
+			out->hang |= tp_wait_until(&g5_aop_step, want, CEIL_MS);
+			want = atomic_load(&g5_aop_step) + 1;
+			if (255 == scn->aop[b].free_on)
+				c05_aop_free_cb(NULL, NULL);
+			else if (0 != tpt_msg_send(tp_thread_get(g5_tp, scn->aop[b].free_on % scn->nthreads), NULL, 0, c05_aop_free_cb, NULL)) {
+				c05_aop_free_cb(NULL, NULL);
+			}
+			out->hang |= tp_wait_until(&g5_aop_step, want, CEIL_MS);
+			out->naop_done ++;
+		}
+		out->hang |= fence_all(g5_tp, scn->nthreads, 1);
+	}
 	/* late burst: messages accepted by a running thread after tp_shutdown() was called but before the thread has seen
 	 * its stop message are still successful sends; the thread is held in a callback while they are queued */
 	if (0 != scn->late_burst && 0 == out->hang) {
